@@ -150,7 +150,7 @@ probes! {
     PropagateInvalidityRequeued,
     BindMainInvalidRhs,
     RemoveParentSwapped,
-    DeadVarsLoopedTwice,
+    DeadVarsLoopIteration,
     DeferredVarWriteApplied,
     HandlerSkippedCreatedThisRound,
     HandlerSkippedDisallowed,
